@@ -24,7 +24,7 @@ V32 = [('VARINT', 'i32')]
 V64 = [('VARINT', 'i64')]
 SPEC = {
     'Null': [[]],
-    'Boolean': [[('BOOL',)]],
+    'Boolean': [[('BOOL',)], [('FIXED', 1)]],
     'Int': [V32, [('VARINT', 'u32')]], 'Date': [V32, [('VARINT', 'u32')]], 'TimeMillis': [V32, [('VARINT', 'u32')]],
     'Long': [V64, [('VARINT', 'u64')]], 'TimeMicros': [V64, [('VARINT', 'u64')]],
     'TimestampMillis': [V64, [('VARINT', 'u64')]], 'TimestampMicros': [V64, [('VARINT', 'u64')]],
@@ -209,6 +209,12 @@ def fn_by_label(f, label):
     for b in f.body_list:
         if fn_label(b) == label:
             return b
+    # the function may have been moved to a sibling module: same crate area (first path segment), same short name
+    want = short_fn(label)
+    top = label.lstrip('<').split('::', 1)[0]
+    cands = [b for b in f.body_list if b.j['kind'] != 'closure' and short_fn(fn_label(b)) == want and fn_label(b).lstrip('<').split('::', 1)[0] == top]
+    if len(cands) == 1:
+        return cands[0]
     return None
 
 
@@ -384,6 +390,14 @@ def index_rule(ctx):
                             none_bb = si['otherwise']
                         if none_bb is not None and all_paths_err(b, none_bb):
                             none_ok = True
+            if not none_ok:
+                # `.get(i).ok_or(..)` / `.ok_or_else(..)`: None becomes the error value
+                for bb2, t2 in b.calls():
+                    if call_matches(t2, ['option::Option::<T>::ok_or_else', 'option::Option::<T>::ok_or']) and any(c is t for c in origin(b, t2['args'][0]).calls + [None]) or \
+                            (call_matches(t2, ['option::Option::<T>::ok_or_else', 'option::Option::<T>::ok_or']) and op_place(t2['args'][0]) and op_place(t2['args'][0])['l'] == t['dest']['l']):
+                        ro = return_origin(b)
+                        if any(c is t2 for c in ro.calls) or try_edges(b, bb2) is not None:
+                            none_ok = True
             which = 'variants' if 'variants' in recv.fields else 'symbols' if 'symbols' in recv.fields else \
                 (b.local_name(list(recv.params())[0]) if len(recv.params()) == 1 else 'slice')
             ctx.ob('INDEX', '%s/%s.get' % (fn_label(b), which), idx_ok and none_ok, short_loc(t.get('span')),
@@ -456,12 +470,11 @@ def lengths_rule(ctx):
             ctx.ob('LENGTHS', label.rsplit('::', 1)[1], False, None, 'anchor %s not found' % label)
             continue
         ctx.touched(b)
-        o = Origin()
-        for d in b.defs().get(0, []):
-            if d[2] == 'call' and d[0] in b.live_blocks() and not b.is_cleanup(d[0]):
-                oo = origin(b, d[3]['args'][0])
-                o.atoms |= oo.atoms; o.flags |= oo.flags; o.calls += oo.calls
-        ok = 'try_into' in o.flags and any('read_varint' in a[1] for a in o.atoms if a[0] == 'call') and not o.has_arith() and not [x for x in o.flags if x.startswith('cast:')]
+        o = return_origin(b)
+        # the Ok payload: only the decoded varint through a checked conversion; error constructors are the Err payload
+        vals = [a for a in o.atoms if a[0] == 'call' and not ('Error' in a[1] or 'from_residual' in a[1])]
+        ok = 'try_into' in o.flags and bool(vals) and all('read_varint' in a[1] for a in vals) and not o.has_arith() \
+            and not [x for x in o.flags if x.startswith('cast:')] and not o.params() - {1}
         ctx.ob('LENGTHS', label.rsplit('::', 1)[1], ok, short_loc(b.span), 'returned usize derives from %s' % o.describe())
     # every usize argument of read_slice / skip in de::deserializer derives from a checked conversion, a constant or a schema size
     m = 0
@@ -642,11 +655,13 @@ def blocks_rule(ctx):
     ctx.touched(hm)
     cs = [(bb, t) for bb, t in hm.calls() if call_matches(t, ['::checked_sub'])]
     ok = False
+    cd_field = None
     for bb, t in cs:
         o0 = origin(hm, t['args'][0]); o1 = origin(hm, t['args'][1])
-        if 'current_block_len' in o0.fields and o1.consts() == {1}:
+        if len(o0.fields) == 1 and o0.params() == {1} and not o0.call_names() and o1.consts() == {1}:
             ok = True
-    ctx.ob('BLOCKS', 'has_more/countdown', ok, short_loc(hm.span), 'per-element countdown is checked_sub(current_block_len, 1): %s' % ok)
+            cd_field = list(o0.fields)[0]
+    ctx.ob('BLOCKS', 'has_more/countdown', ok, short_loc(hm.span), 'per-element countdown is checked_sub(self.%s, 1): %s' % (cd_field, ok))
     rb = [(bb, t) for bb, t in hm.calls() if 'read_block_len' in cname(t)]
     ok = len(rb) == 1
     if ok:
@@ -669,11 +684,11 @@ def blocks_rule(ctx):
     st = False
     for bb in hm.live_blocks():
         for s in hm.stmts(bb):
-            if 'assign' in s and any(isinstance(e, dict) and e.get('f') == 'current_block_len' for e in s['assign'].get('p', [])):
+            if 'assign' in s and cd_field and any(isinstance(e, dict) and e.get('f') == cd_field for e in s['assign'].get('p', [])):
                 o = origin(hm, s['rv']['op']) if s['rv']['k'] == 'use' else None
                 if o is not None:
                     from_hdr = any('read_block_len' in cname(c) for c in o.calls)
                     from_cd = any(call_matches(c, ['::checked_sub']) for c in o.calls)
                     ar = {x for x in o.flags if x.startswith('arith:')}
                     st = from_hdr and from_cd and ar <= {'arith:SubWithOverflow', 'arith:Sub'} and 1 in o.consts()
-    ctx.ob('BLOCKS', 'has_more/stores-count-minus-one', st, short_loc(hm.span), 'current_block_len = countdown | header count - 1: %s' % st)
+    ctx.ob('BLOCKS', 'has_more/stores-count-minus-one', st, short_loc(hm.span), 'self.%s = countdown | header count - 1: %s' % (cd_field, st))
